@@ -773,7 +773,9 @@ class ShapedEncoding(LazyIndexMap):
                     str(self._shape),
                 )
 
-            rem = self._data.size // size
+            # the size of an encoding can be an unsigned numpy integer
+            # which divided by a signed one would give a float
+            rem = int(self._data.size) // int(size)
             self._shape = tuple(rem if s == -1 else s for s in self._shape)
         elif nn > 2:
             raise ValueError("shape cannot have more than one -1 value")
